@@ -331,7 +331,12 @@ def find(case, el, q):
 
 
 def history(ctx, b, model, sts, first, wmin, wmax, bins, name="history", after=None):
-    """The first point again, after everything else: must reproduce the first evaluation bit for bit."""
+    """The first point again, after everything else - including one evaluation into a spectrum with another range and another
+    number of bins (anything remembered from that call, e.g. a normalisation by the spectral range, would show): must reproduce
+    the first evaluation bit for bit."""
+    with ctx.cut("emission"):
+        other = emit(b, model, sts[-1], wmin * 0.75, wmax * 1.5 + 10.0, bins + 3)
+    ctx.check(np.all(np.isfinite(other)), name, "non-finite samples for another spectral window")
     with ctx.cut("emission"):
         again = emit(b, model, sts[0], wmin, wmax, bins)
     if not np.array_equal(again, first):
@@ -500,6 +505,8 @@ def run_lines(case, ctx):
 
     # ---- the same model instance at every point in turn, then the first point again
     res = [_lines_point(cs, ctx, b, model, k, wmin, wmax, bins) for k, cs in enumerate(sts)]
+    # the same model asked for another spectral range and bin count: judged by the same oracle
+    _lines_point(sts[-1], ctx, b, model, len(sts) - 1, wmin * 0.75, wmax * 1.5 + 10.0, bins + 3)
     history(ctx, b, model, sts, res[0][0], wmin, wmax, bins)
     ti = find(case, ln["el"], ln["q"] if kind == "exc" else ln["q"] + 1)
     donors = [i for i, s in enumerate(case["species"]) if i != ti and s["q"] < ELS[s["el"]]] if kind == "tcx" else []
@@ -608,6 +615,7 @@ def run_trp(case, ctx):
     w = case["win"]
     wmin, wmax, bins = w["min"], w["min"] + w["width"], w["bins"]
     res = [_trp_point(cs, ctx, b, model, k, wmin, wmax, bins) for k, cs in enumerate(sts)]
+    _trp_point(sts[-1], ctx, b, model, len(sts) - 1, wmin * 0.75, wmax * 1.5 + 10.0, bins + 3)      # other range, same oracle
     history(ctx, b, model, sts, res[0][0], wmin, wmax, bins)
     i0, i1 = find(case, t["el"], t["q"]), find(case, t["el"], t["q"] + 1)
     hyd = [i for i, s in enumerate(case["species"]) if s["el"] in HYD and s["q"] == 0]
@@ -759,6 +767,7 @@ def run_brems(case, ctx):
     w = case["win"]
     wmin, wmax, bins = w["min"], w["min"] + w["width"], w["bins"]
     res = [_brems_point(cs, ctx, b, model, g, k, wmin, wmax, bins) for k, cs in enumerate(sts)]
+    _brems_point(sts[-1], ctx, b, model, g, len(sts) - 1, wmin * 0.75, wmax * 1.5 + 10.0, bins + 3)   # other range, same oracle
     history(ctx, b, model, sts, res[0][0], wmin, wmax, bins)
     seq_labels(ctx, sts, [i for i, s in enumerate(case["species"]) if s["q"] > 0], False)
     ctx.nt(any(r[2] for r in res))
